@@ -1,35 +1,56 @@
 import PhyModel.Proofs.ASMC5
 import PhyModel.Proofs.Gibbs
 import PhyModel.Model.SMC
+import PhyModel.Proofs.PG4
+import PhyModel.Proofs.PGExample
 /-! # C01 — one particle-Gibbs update of the whole tree leaves the posterior invariant
 
-Two theorems carry the argument (DESIGN.md section 6, C01):
+Two abstract theorems carry the argument (DESIGN.md section 6, C01):
 
 * `csmc_invariant` — conditional SMC with the retained path in slot 0, `m + 1` particles (any `m`),
   `T` steps (any `T`), adaptive resampling by any rule that is symmetric in the slots, weights
   carried between resampling times, final draw proportional to the weights: it leaves the level-`T`
   target invariant, exactly.  Stated for an arbitrary finite state space, proposal `q`, targets `g`,
-  under the validity conditions `ASMC.Valid` (normalised proposals, unique parents, support
-  conditions) which are what C08 establishes for PhyClone's three proposals.
+  under the validity conditions `ASMC.ValidTo sp T` (normalised proposals, unique parents, support
+  conditions, each required of the steps `t < T` only) which are what C08 establishes for PhyClone's
+  three proposals.
 * `aux_mixture_invariant` — drawing the data order σ from `u x ·` and then applying a kernel that
   leaves `π·u(·,σ)` invariant leaves `π` invariant; with `u x σ = 1/count x` on the compatible orders
   (C09) this is how `ParticleGibbsTreeSampler.sample_tree` composes the permutation draw with the
   conditional SMC sweep.
 
+and the PhyClone instance is built on them:
+
+* `pg_spec_valid`, `pg_csmc_invariant` — for a fixed order σ of distinct data points, the partial trees
+  reachable from the empty tree by placing `σ[0], σ[1], …` (`PGSpec.level`, `PGSpec.states`), the
+  proposal probabilities of `Proposal.table`, the targets `pMarg·pdf` (`pOne·pdf` at the last level),
+  `parent` = removal of the last-placed data point and the relative-ESS rule form an `ASMC.Spec` that
+  satisfies `ASMC.ValidTo … σ.length`; so the conditional SMC sweep along σ leaves `pOne·pdf` invariant.
+
 The executable model `SMC.pgStep` (which the correspondence check compares, transition row by
 transition row, with the exact kernel of the real `sample_tree`) is an instance of this abstract
-scheme; the formal instantiation is the open obligation below. -/
+scheme; what remains of the formal identification is the open obligation at the end. -/
 
 namespace PhyModel.Props.C01
 open Finset BigOperators
 
 /-- **Conditional SMC leaves the unnormalised target invariant**, for every number of particles,
-every number of steps, every symmetric adaptive resampling rule and every `u > 0` (the uniform
-weight given after resampling). -/
+every number of steps `T`, every symmetric adaptive resampling rule and every `u > 0` (the uniform
+weight given after resampling).  The validity conditions are asked of the `T` steps the sweep
+performs (`ASMC.ValidTo sp T`).  Asking them of every `t` (the earlier `ASMC.Valid`) is too much: at
+the last level it would demand yet another normalised proposal into a further level, and so on for
+ever, which on a finite state type forces every level to carry a single supported state — no
+branching system, PhyClone's least of all, can satisfy it. -/
 theorem csmc_invariant {X : Type} [Fintype X] [DecidableEq X] {m : ℕ}
-    (sp : ASMC.Spec (m := m) X) (u : ℚ) (hv : ASMC.Valid sp) (hu : 0 < u) (T : ℕ) (y : X) :
+    (sp : ASMC.Spec (m := m) X) (u : ℚ) (T : ℕ) (hv : ASMC.ValidTo sp T) (hu : 0 < u) (y : X) :
     ∑ x, sp.g T x * ASMC.kernel sp u T x y = sp.g T y :=
-  ASMC.csmc_invariant hv hu T y
+  ASMC.csmc_invariant_to hv hu y
+
+/-- non-vacuity: a root with two children (target masses 1 and 2, each proposed with probability
+1/2), one step, two particles — the hypotheses hold and the last level really has two supported
+states -/
+example : ASMC.ValidTo PG.exSpec 1 ∧ 0 < PG.exSpec.g 1 1 ∧ 0 < PG.exSpec.g 1 2 :=
+  ⟨PG.exSpec_valid, PG.exSpec_branches⟩
 
 /-- **Auxiliary data order.** -/
 theorem aux_mixture_invariant {X Sg : Type} [Fintype X] [Fintype Sg] [DecidableEq X]
@@ -39,6 +60,48 @@ theorem aux_mixture_invariant {X Sg : Type} [Fintype X] [Fintype Sg] [DecidableE
     ∑ x, π x * (∑ s, u x s * P s x y) = π y :=
   Moves.aux_mixture_invariant π u P hu hP y
 
--- OBLIGATION-OPEN pg_invariant: instantiate `ASMC.Spec` with PhyClone's partial trees along a fixed order (state = `T`, `q` = `Proposal.table`, `g t` = pMarg·pdf for t < T and pOne·pdf at T, `parent` = removal of the last-placed data point), discharge `ASMC.Valid` from the C08 theorems, identify `SMC.csmc` with `ASMC.kernel`, and conclude `∑ x, pOne x * P(SMC.pgStep x = y) = pOne y`; until then the tie between the abstract theorem and `SMC.pgStep` is the exact row-by-row correspondence with the real code plus the exact `πK = π` oracle on every enumerated configuration.
+/-- **Stage 1: the PhyClone instance satisfies the hypotheses of `csmc_invariant`.**  For a data
+set with positive likelihoods, `α > 0`, outlier proposal probability in `[0,1)`, any of the three
+proposals, with or without a permutation distribution, a fixed order `σ` of distinct data points
+(`PG.Hyp`), any list `L` of trees containing the partial trees met along `σ`, any threshold `θ`
+and any number `m + 1` of particles: `PG.spec` — states `L`, `q t x x'` = probability that
+`Proposal.table dt c (t = 0) x σ[t]` gives `x'` (`PG.qT`), `g t` = point mass at the empty tree for
+`t = 0`, `pMarg·pdf` on level `t` for `0 < t < |σ|`, `pOne·pdf` on the last level (`PG.gT`), `parent`
+= removal of the last-placed data point (`PG.parentT`, C08's `recover`), `rs` = the relative-ESS rule
+(`PG.essRule`) — satisfies `ASMC.ValidTo … σ.length`. -/
+theorem pg_spec_valid (dt : Data) (c : Proposal.Cfg) (σ : List ℕ) (L : List T) (h : PG.Hyp dt c σ)
+    (hL : ∀ x ∈ PGSpec.states c σ, x ∈ L) (θ : ℚ) (m : ℕ) :
+    ASMC.ValidTo (PG.spec dt c σ L hL θ m) σ.length :=
+  PG.spec_valid h hL θ m
+
+/-- **Conditional SMC along a fixed order leaves `pOne·pdf` invariant** on the complete trees
+reachable along that order (`PG.gT … σ.length` vanishes off the last level). -/
+theorem pg_csmc_invariant (dt : Data) (c : Proposal.Cfg) (σ : List ℕ) (L : List T) (h : PG.Hyp dt c σ)
+    (hL : ∀ x ∈ PGSpec.states c σ, x ∈ L) (θ : ℚ) (m : ℕ) (u : ℚ) (hu : 0 < u) (y : PG.St L) :
+    ∑ x : PG.St L, PG.gT dt c σ σ.length x.1 * ASMC.kernel (PG.spec dt c σ L hL θ m) u σ.length x y
+      = PG.gT dt c σ σ.length y.1 :=
+  PG.pg_csmc_invariant h hL θ m u hu y
+
+/-- the abstract incremental weight `g (t+1) x' / (g t x · q t x x')` is the model's
+`Proposal.incrWeight` (`Kernel.create_particle` + `_get_log_w`) -/
+theorem pg_incr_eq_incrWeight (dt : Data) (c : Proposal.Cfg) (σ : List ℕ) (L : List T) (h : PG.Hyp dt c σ)
+    (hL : ∀ x ∈ PGSpec.states c σ, x ∈ L) (θ : ℚ) (m : ℕ) (t : ℕ) (x x' : PG.St L)
+    (hx : x.1 ∈ PGSpec.level c σ t) (i : ℕ) (hi : σ[t]? = some i) (hc : x'.1 ∈ PGSpec.children c x.1 i) :
+    ASMC.incr (PG.spec dt c σ L hL θ m) t x x'
+      = Proposal.incrWeight dt c (t == 0) (t + 1 == σ.length) x.1 x'.1
+          (PG.tprob (Proposal.table dt c (t == 0) x.1 i) x'.1) :=
+  PG.incr_eq_incrWeight h hL θ m hx hi hc
+
+/-- non-vacuity (all three): two data points on a 2-point grid with outlier prior 1/2, every proposal
+kind, outlier proposal probability 1/10, permutation distribution on, order `[1, 0]`: the
+hypotheses hold, the first level has two trees and the last level six (one clone; two clones side
+by side; data point 0 above data point 1; each of the two data points, or both, in the outlier set),
+so the sum in `pg_csmc_invariant` is a genuine one -/
+example : (∀ k, PG.Hyp Props.C19.exData (PG.exCfg k) [1, 0]) ∧
+    (PGSpec.level (PG.exCfg .semi) [1, 0] 1).length = 2 ∧
+    (PGSpec.level (PG.exCfg .semi) [1, 0] 2).length = 6 := by
+  refine ⟨PG.exHyp, ?_, ?_⟩ <;> decide +kernel
+
+-- OBLIGATION-OPEN pg_invariant: identify `SMC.csmc` with `ASMC.kernel (PG.spec …)` and conclude `∑ x, pOne x * P(SMC.pgStep x = y) = pOne y`; until then the tie between the abstract theorem and `SMC.pgStep` is the exact row-by-row correspondence with the real code plus the exact `πK = π` oracle on every enumerated configuration.
 
 end PhyModel.Props.C01
